@@ -26,4 +26,25 @@ func (r *RtRefreshManager) Close() error
   ensures [waits-for-own-goroutines] tagged("wgwait:r.refcount")
   ghost at call(cancel): $cancelled = true
   ghost at before call(Wait): assert($cancelled)
+
+# C12: every refresh request the loop has accepted gets its answer - the loop
+# never leaves (not even at shutdown) while it holds response channels it has
+# not answered. ($col / $ans: response channels collected / answered.)
+func (r *RtRefreshManager) pingAndEvictPeers(ctx context.Context)
+  modifies *
+func (r *RtRefreshManager) doRefresh(ctx context.Context, forceRefresh bool) error
+  modifies *
+
+func (r *RtRefreshManager) loop()
+  props C12 C14
+  ghostvar $col int = 0
+  ghostvar $ans int = 0
+  modifies *
+  ensures [internal-every-accepted-request-is-answered] $col == $ans
+  ensures [accounted] tagged("wgdone:r.refcount")
+  loop 0 invariant $col == $ans
+  loop 1 invariant $col - $ans == len(waiting)
+  loop over waiting invariant $col - $ans == len(waiting) - $key
+  ghost at append(waiting): $col = $col + 1
+  ghost at send(w): $ans = $ans + 1
 @*/
